@@ -175,7 +175,7 @@ def gen_item(rng, items, name=None):
         cand = [c for c in classes if c != nm]
         if cand and rng.random() < 0.5:
             bases = [rng.choice(cand)]
-            if len(cand) > 1 and rng.random() < 0.15:
+            if len(cand) > 1 and rng.random() < 0.3:
                 b2 = rng.choice([c for c in cand if c != bases[0]])
                 bases.append(b2)
         base_items = [cur[b] for b in bases]
@@ -203,12 +203,14 @@ def gen_item(rng, items, name=None):
         at = {"K": rng.choice(["1", "2", "'q'"])} if rng.random() < 0.3 else {}
         if rng.random() < 0.12:
             at["T"] = rng.choice(HETERO)
+        # a base class that belongs to another module, before or after the in-module bases
+        xb = rng.choice(["first", "last"]) if slots is None and rng.random() < 0.12 else None
         hook = None
         if rng.random() < 0.09:
             # "inst" is the form the module docstring of _livepatch.py shows: an instance method `__livepatch__(self, old, ...)`
             hook = rng.choice(["plain", "varkw", "first", "extra", "order", "cm", "cm", "inst"])
         return dict(k="class", name=nm, bases=bases, slots=slots, attrs=at, meta=meta, metaname=metas[0] if metas else None,
-                    init=init, methods=methods, doc=rng.choice([None, None, "cdoc"]), hook=hook,
+                    init=init, methods=methods, doc=rng.choice([None, None, "cdoc"]), hook=hook, xb=xb,
                     hookname=rng.choice(HOOK_NAMES))
     if r < 0.93 and classes:
         c = rng.choice(classes)
@@ -283,8 +285,11 @@ def fixup(items):
                 it["meta"] = None
             if it.get("meta") == "enum":
                 it["bases"], it["slots"], it["init"], it["attrs"], it["hook"] = [], None, False, {}, None
+                it["xb"] = None
                 for m in it["methods"]:
                     m["super"] = False
+            if it.get("slots") is not None:
+                it["xb"] = None
         elif k == "inst":
             if not (it["cls"] in cur and cur[it["cls"]]["k"] == "class"):
                 continue
@@ -408,6 +413,10 @@ def render_item(it):
         return ["%s = lambda x=1: x + %d" % (n, it["c"])]
     if k == "class":
         hdr = list(it["bases"])
+        if it.get("xb") == "first":
+            hdr.insert(0, "c16ext_a.Ext")
+        elif it.get("xb") == "last":
+            hdr.append("c16ext_a.Ext")
         if it.get("meta") == "abc":
             hdr.append("metaclass=abc.ABCMeta")
         elif it.get("meta") == "custom":
@@ -597,6 +606,12 @@ def mutate(rng, items):
             elif k == "func" and rng.random() < 0.06:
                 it["hook"] = rng.choice([None] + sorted(HOOKS))
                 it["hookname"] = rng.choice(HOOK_NAMES)
+            elif k == "class" and (len(it["bases"]) == 2 or (it.get("xb") and it["bases"])) and rng.random() < 0.3:
+                # pure reordering of the bases: same set of base classes, other method resolution order
+                if len(it["bases"]) == 2 and (not it.get("xb") or rng.random() < 0.5):
+                    it["bases"] = it["bases"][::-1]
+                else:
+                    it["xb"] = "last" if it["xb"] == "first" else "first"
             elif k == "class" and rng.random() < 0.06:
                 it["hook"] = rng.choice([None, "plain", "varkw", "first", "extra", "order", "cm"])
                 it["hookname"] = rng.choice(HOOK_NAMES)
@@ -722,14 +737,69 @@ def mutate(rng, items):
 FAIL_KINDS = ["raise", "raise", "zerodiv", "name", "import", "classbody", "sysexit", "kbint", "call", "syntax"]
 
 
+def _cls(name, bases, methods, **kw):
+    it = dict(k="class", name=name, bases=list(bases), slots=None, attrs={}, meta=None, metaname=None, init=False,
+              methods=methods, doc=None, hook=None, hookname="__livepatch__", xb=None)
+    it.update(kw)
+    return it
+
+
+def gen_mro_pair(rng):
+    """a class with two bases (in-module, optionally one of another module) that define the same method, a subclass and
+    live instances; the new version only *reorders* the bases (other method resolution order), plus at most one more edit"""
+    mn = rng.choice(MN)
+    meth = lambda c: dict(name=mn, kind="plain", c=c, super=False, cc=False)
+    c1, c2 = rng.sample(INTS, 2)
+    b1, b2, dn, en = rng.sample(CN, 4)
+    items = [gen_item(rng, []) for _ in range(rng.choice([0, 0, 1]))]
+    items.append(_cls(b1, [], [meth(c1)] + ([dict(name="p", kind="static", c=3, super=False, cc=False)] if mn != "p" and rng.random() < 0.3 else []),
+                      attrs={"K": "1"} if rng.random() < 0.4 else {}))
+    xb = None
+    if rng.random() < 0.35:
+        # the second base belongs to another module (c16ext_a.Ext defines m)
+        mn2 = "m"
+        items[-1]["methods"] = [dict(name="m", kind="plain", c=c1, super=False, cc=False)]
+        xb = rng.choice(["first", "last"])
+        bases = [b1]
+    else:
+        items.append(_cls(b2, [], [meth(c2)], attrs={"K": "2"} if rng.random() < 0.4 else {}))
+        bases = [b1, b2]
+    own = [dict(name=rng.choice([x for x in MN if x != mn and x != "m"]), kind=rng.choice(["plain", "class", "static"]),
+                c=rng.choice(INTS), super=False, cc=False)] if rng.random() < 0.6 else []
+    items.append(_cls(dn, bases, own, xb=xb, meta=rng.choice([None, None, None, "abc"])))
+    if rng.random() < 0.6:
+        items.append(_cls(en, [dn], []))
+        if rng.random() < 0.7:
+            items.append(dict(k="inst", name="i2", cls=en, arg=None, extra={}, sset={}))
+    if rng.random() < 0.8:
+        items.append(dict(k="inst", name="i1", cls=dn, arg=None, extra={"e": "1"} if rng.random() < 0.3 else {}, sset={}))
+    if rng.random() < 0.3:
+        items.append(dict(k="alias", name="al", target=dn))
+    old = fixup(items)
+    new = copy.deepcopy(old)
+    for it in new:
+        it.pop("_arg_ok", None)
+        if it["k"] == "class" and it["name"] == dn:
+            if it.get("xb"):
+                it["xb"] = "last" if it["xb"] == "first" else "first"
+            else:
+                it["bases"] = it["bases"][::-1]
+    if rng.random() < 0.35:
+        new = mutate(rng, new)
+    return old, fixup(new)
+
+
 def gen_case(rng, tier="quick"):
     size = rng.choice([1, 2, 3, 4, 6, 8])
-    old = gen_version(rng, size)
-    tries = 0
-    while not old and tries < 5:
-        old = gen_version(rng, size + 1)
-        tries += 1
-    new = mutate(rng, old)
+    if rng.random() < 0.04:
+        old, new = gen_mro_pair(rng)
+    else:
+        old = gen_version(rng, size)
+        tries = 0
+        while not old and tries < 5:
+            old = gen_version(rng, size + 1)
+            tries += 1
+        new = mutate(rng, old)
     case = dict(old=render(old), new=render(new), fail=None, via=rng.choice(["module", "module", "name", "path"]))
     # the other documented ways to name what is to be reloaded: xreload() (every modified module), xreload([m]),
     # xreload("name.py"), xreload("/path/name.pyc")
